@@ -79,10 +79,18 @@ Live(S) == LET RECURSIVE Sum(_)
                RECURSIVE SumS(_)
                SumS(i) == IF i = 0 THEN 0 ELSE S.s[SN[i]].hq + SumS(i - 1)
            IN Sum(Len(PN)) + SumS(Len(SN))
+RECURSIVE ReqSink(_, _)
+ReqSink(S, p) == LET t == S.p[p].out IN
+                 IF t \in SinkNames THEN t
+                 ELSE IF t \in PipeNames /\ S.p[t].ex /\ S.p[t].k \notin {"null", "tblk"} THEN ReqSink(S, t) ELSE "-"
+StuckReq(S, p) == ReqSink(S, p) = "-"
 \* buffers that can never leave: those of a upipe_buffer behind a head larger than max_size, and those of
 \* every holder upstream of it (its pump stays blocked by the stuck holder)
-StuckHead(S, p) == LET P == S.p[p] IN P.ex /\ P.k = "buffer" /\ P.q # <<>> /\ IsBuf(Head(P.q))
-                                      /\ Len(Head(P.q)[2].pl) > P.a
+StuckHead(S, p) == LET P == S.p[p] IN
+    \/ P.ex /\ P.k = "buffer" /\ P.q # <<>> /\ IsBuf(Head(P.q)) /\ Len(Head(P.q)[2].pl) > P.a
+    \* a upipe_tblk whose buffer manager request reaches no sink (no output, or a downstream upipe_tblk
+    \* keeps it for its probe) is never answered in this environment
+    \/ P.ex /\ P.k = "tblk" /\ P.q # <<>> /\ ~P.um /\ StuckReq(S, p)
 RECURSIVE StuckSet(_, _)
 StuckSet(S, X) == LET Y == X \cup {p \in PipeNames : S.p[p].ex /\ (S.p[p].out \in X
                                         \/ \E x \in X : S.p[x].ex /\ S.p[x].par = p)}
@@ -92,11 +100,16 @@ Stuck(S) == LET X == StuckSet(S, {p \in PipeNames : StuckHead(S, p)})
                 Sum(i) == IF i = 0 THEN 0
                           ELSE (IF PN[i] \in X THEN NumBufs(S.p[PN[i]].q) ELSE 0) + Sum(i - 1)
             IN Sum(Len(PN))
-\* the sink at the end of the chain of output helpers starting at p ("-" if none)
-RECURSIVE EndSink(_, _)
-EndSink(S, p) == LET t == S.p[p].out IN
-                 IF t \in SinkNames THEN t
-                 ELSE IF t \in PipeNames /\ S.p[t].ex /\ S.p[t].k # "null" THEN EndSink(S, t) ELSE "-"
+\* the sink at which a request of pipe p ends up ("-" if none): requests travel down the output helpers of
+\* every kind of pipe, except that upipe_tblk (and upipe_null, which has no output) keeps the buffer manager
+\* requests that reach it for its own probe
+RECURSIVE EndSinkT(_, _, _)
+EndSinkT(S, p, ty) == LET t == S.p[p].out IN
+                      IF t \in SinkNames THEN t
+                      ELSE IF t \in PipeNames /\ S.p[t].ex /\ S.p[t].k # "null"
+                              /\ ~(ty = "ubuf" /\ S.p[t].k = "tblk")
+                           THEN EndSinkT(S, t, ty) ELSE "-"
+EndSink(S, p) == EndSinkT(S, p, IF S.p[p].k = "tblk" THEN "ubuf" ELSE "uclock")
 \* upipe_buffer: number of leading items that fit in max_size
 RECURSIVE Extend(_, _, _)
 Extend(q, nb, max) == IF nb < Len(q) /\ SumTo(q, nb + 1) <= max THEN Extend(q, nb + 1, max) ELSE nb
